@@ -40,6 +40,7 @@ type straceCall struct {
 	Ret      string   // "0", "5", "-1", "?"
 	Errno    string   // "ENOSPC" when Ret == "-1"
 	Injected bool
+	Restart  bool // "= ? ERESTARTSYS ...": interrupted before it did anything, issued again later
 	Line     int
 }
 
@@ -246,6 +247,7 @@ func parseStrace(text string) *straceTrace {
 			c.Errno = f[1]
 		}
 		c.Injected = strings.Contains(result, "(INJECTED)")
+		c.Restart = c.Ret == "?" && len(f) > 1 && strings.HasPrefix(f[1], "ERESTART")
 		tr.Calls = append(tr.Calls, c)
 	}
 	// a call that never returned because the process was killed inside it
@@ -438,6 +440,9 @@ func projectTrace(tr *straceTrace, root string) []c05Op {
 			if i == 0 || p != touched[0] {
 				counts[c.Name+"\x00"+p]++
 			}
+		}
+		if c.Restart {
+			continue // counted by strace's when= (done above), but not an operation
 		}
 		add := func(o c05Op) {
 			o.Res, o.Sys, o.Pid, o.Injected = res, c.Name, c.Pid, c.Injected
@@ -1328,8 +1333,15 @@ func (st *c05State) kill(s *c05Scenario, base *c05Run, prog []c05Action, k int) 
 	hit = -1
 	for attempt := 0; attempt < 6 && hit < 0; attempt++ {
 		run = c05Strace(ctx, s, &target, base.Root, "error=ENOSYS:signal=SIGKILL", 0)
-		if n := len(run.Ops); n > 0 && run.Ops[n-1].Res == "?" && run.Signal != "" {
+		if n := len(run.Ops); n > 0 && run.Ops[n-1].Res == "?" && run.Signal != "" && !run.TimedOut {
 			hit = c05Locate(base, run, n-1)
+			// the perturbed trace shows the calls on the target's file only; up to the
+			// kill they must be the ones of the unperturbed run, or the run is not
+			// the crash point it seems to be (restarted calls, a watchdog kill, ...)
+			if hit >= 0 && !c05SamePrefix(base, run, hit, n-1) {
+				hit = -1
+				res.Count("kill_run_discarded_inconsistent", 1)
+			}
 		}
 	}
 	st.evals(1, 0)
@@ -1391,6 +1403,8 @@ func (st *c05State) kill(s *c05Scenario, base *c05Run, prog []c05Action, k int) 
 		if d := c05DiffFiles(ms, run.After); !ok || len(d) > 0 {
 			rep := st.replayMap(s, "kill", hit, "")
 			rep["broken"] = "correspondence: tree after kill = Model.FsProto.exec (completed operations)"
+			rep["perturbed_trace"] = c05OpsString(run.Ops)
+			rep["target"] = fmt.Sprintf("%s when=%d on %s", target.Sys, target.Nth, target.PPath)
 			res.AddViolation(Violation{Key: "C05/correspondence/kill-state", FoundInput: false, Size: len(done),
 				What: fmt.Sprintf("scenario %s killed before op #%d: tree differs from the model state: %v", s.Name, hit, d), Replay: rep})
 		} else {
@@ -1398,6 +1412,24 @@ func (st *c05State) kill(s *c05Scenario, base *c05Run, prog []c05Action, k int) 
 		}
 	}
 	return hit
+}
+
+// c05SamePrefix: the operations before index i of the path-filtered perturbed
+// trace are exactly the operations before index k of the unperturbed trace that
+// touch the same file.
+func c05SamePrefix(base, run *c05Run, k, i int) bool {
+	relPath := func(r *c05Run, o c05Op) string { return strings.TrimPrefix(o.PPath, r.Root+"/") }
+	file := relPath(run, run.Ops[i])
+	var want, got []string
+	for _, o := range base.Ops[:k] {
+		if relPath(base, o) == file || o.Kind == "r" && (o.A == file || o.B == file) {
+			want = append(want, o.Token()+"="+o.Res)
+		}
+	}
+	for _, o := range run.Ops[:i] {
+		got = append(got, o.Token()+"="+o.Res)
+	}
+	return strings.Join(want, " ") == strings.Join(got, " ")
 }
 
 // c05Locate maps operation i of a perturbed, path-filtered trace back to the
@@ -1460,6 +1492,10 @@ func (st *c05State) fault(s *c05Scenario, base *c05Run, prog []c05Action, k int,
 				ninj++
 				if ninj == 1 {
 					hit = c05Locate(base, run, i)
+					if hit >= 0 && !c05SamePrefix(base, run, hit, i) {
+						hit = -1
+						ninj = -1000 // inconsistent with the unperturbed run: discard
+					}
 				}
 			}
 		}
@@ -1484,9 +1520,13 @@ func (st *c05State) fault(s *c05Scenario, base *c05Run, prog []c05Action, k int,
 	rep["stderr"] = c05Short(run.Stderr)
 	keyp := fmt.Sprintf("C05/fault-%s-%s/", opk, errno)
 	where := fmt.Sprintf("scenario %s, pkglint %s with mutating system call #%d (%s) failing with %s", s.Name, strings.Join(s.Args, " "), hit, hitOp, errno)
-	if run.TimedOut || run.Signal != "" {
+	if run.TimedOut {
+		res.Count("fault_run_timed_out", 1) // machine load, not a finding
+		return false
+	}
+	if run.Signal != "" {
 		res.AddViolation(Violation{Key: keyp + "crash", FoundInput: true, Size: 10 * hit, Replay: rep,
-			What: fmt.Sprintf("%s: process ended by %s timeout=%v", where, run.Signal, run.TimedOut)})
+			What: fmt.Sprintf("%s: process ended by signal %s", where, run.Signal)})
 		return true
 	}
 	// A failed save changes what the run does afterwards: plist.go saves the
@@ -1792,7 +1832,7 @@ func runC05(ctx *Ctx) *Result {
 	}
 	st := &c05State{ctx: ctx, res: res, umask: c05Umask()}
 	rng := NewRng(ctx.Seed)
-	variants := 1
+	variants := 2
 	if ctx.Tier == "thorough" {
 		variants = 12
 	}
